@@ -90,8 +90,8 @@ func codecReplay(kind string, in []byte, exp, obs string) Replay {
 func c16DecodeLen(r *Run, L int, vals []byte) {
 	c16Patterns(L, vals, func(kind string, b []byte) {
 		r.States++
-		c16CheckDecodeMessage(r, kind, b)
-		c16CheckDecodeBurn(r, kind, b)
+		c16Safely(r, "message", kind, b, func() { c16CheckDecodeMessage(r, kind, b) })
+		c16Safely(r, "burn message", kind, b, func() { c16CheckDecodeBurn(r, kind, b) })
 		if L == 116 || L == 115 || L == 132 || L == 131 || L == 133 || L == 248 || kind != "zeros" {
 			r.Distinct(fmt.Sprintf("%d/%s", L, kind))
 		}
@@ -103,6 +103,18 @@ func c16DecodeLen(r *Run, L int, vals []byte) {
 		}
 		r.Sample("decode", map[string]any{"len": L, "pattern": "tagged", "hex": fmt.Sprintf("%x", b)})
 	}
+}
+
+// c16Safely turns a panic of the implementation codec into a violation (wrong
+// lengths must be rejected with an error).
+func c16Safely(r *Run, what, kind string, b []byte, f func()) {
+	defer func() {
+		if p := recover(); p != nil {
+			r.Violate("C16 "+what+" codec panics instead of returning an error", fmt.Sprintf("len=%d %s: %v", len(b), kind, p),
+				codecReplay(what+"-decode", b, "error", fmt.Sprint(p)))
+		}
+	}()
+	f()
 }
 
 func c16CheckDecodeMessage(r *Run, kind string, b []byte) {
